@@ -1,4 +1,4 @@
-HOOK_COMMITS = ["74bf6ff"]
+HOOK_COMMITS = ["74bf6ff", "82c1591"]
 
 ALL = ["C%02d" % i for i in range(1, 21)]
 
@@ -8,7 +8,34 @@ SEQ_NOTE = ("Trusted: Coq kernel; extraction (ExtrOcamlBasic); OCaml replayer; G
             "The tie model<->code is differential testing over generated operation sequences in all 12 feature combinations.")
 SEQ_TECH = "Coq refinement proof (congruence of the concrete step w.r.t. live contents, induction over runs) + model/implementation correspondence replay"
 
+MAINT_NOTE = ("Trusted: Coq kernel; extraction; OCaml replayer; Go harness; the hook verifPoint(1) and VerifAudit (tag verif). Modelled, not verified: "
+              "floating-point window sizing and hill climber (maxima <= 12 in the closed-loop engine), maphash (hashes read from the implementation), the striped read buffer as one ring. "
+              "The all-event-lists invariant (C05_inv) is not yet a Coq theorem in this revision: the theorems cover the eviction loop, the repaired update and the sweep decision; "
+              "everything else rests on the closed-loop correspondence (every deque, counter and bucket after every operation) and the view oracles.")
+MAINT_TECH = "Coq proof (loop-step lemmas, invariants) over an executable policy/wheel model + closed-loop model/implementation replay with internal-state audit"
+
 TEXTS = {
+    "C04": dict(text="Coq theorems on the W-TinyLFU eviction loop: a node is evicted for size only while total weight > maximum, never with weight 0; the loop exits only with the bound restored or both "
+                     "cursors exhausted; an oversized node is evicted by the task that introduces it. The implementation's policy is replayed in a closed loop by the extracted model (all deques/counters compared "
+                     "after every operation, every eviction predicted) and the bound is checked on the implementation at every quiescent point, including after SetMaximum.",
+               design_ref="DESIGN.md section 5, C04", note=MAINT_NOTE, technique=MAINT_TECH),
+    "C05": dict(text="Coq theorems on the repaired policy.update (out-of-order tasks fall back to delete+add; weights immutable) with the original defect's witnesses replayed on the model; closed-loop correspondence of "
+                     "deques, three counters, wheel buckets and node states after every operation; implementation-only oracles at quiescence: WeightedSize = sum of weights, EstimatedSize = table size, "
+                     "Hottest = Coldest = All as sets, every present entry linked exactly once in the eviction and expiration policies, no removed entry tracked.",
+               design_ref="DESIGN.md section 5, C05", note=MAINT_NOTE, technique=MAINT_TECH),
+    "C06": dict(text="Coq theorems: every index action of the concrete model is nothing / an in-place deadline change (no event) / an install (one event for the replaced node) / a removal (one event for the removed node), "
+                     "with cause Expiration iff the node's deadline had passed; entries + events = previous entries + installs. Per-operation atomic events are compared with the model; OnDeletion = OnAtomicDeletion as multisets at quiescence.",
+               design_ref="DESIGN.md section 5, C06", note=SEQ_NOTE, technique=SEQ_TECH),
+    "C07": dict(text="Coq theorems: Overflow only from a state with total weight > maximum (or an oversized entry), never weight 0; Expiration only if the current deadline lies strictly before the sweep's time; the index accepts an "
+                     "automatic removal only for the node it holds. Every automatic removal of the implementation is predicted exactly by the closed-loop model, and each Overflow removal is checked against the model's total weight.",
+               design_ref="DESIGN.md section 5, C07", note=MAINT_NOTE, technique=MAINT_TECH),
+    "C13": dict(text="Coq theorems on the timer-wheel model with the real constants: the sweep expires exactly the timers whose current deadline lies before the wheel's time; an already-due timer (stale-clock write) is placed in the current "
+                     "tick's bucket; concrete multi-level/multi-revolution instances. The implementation's wheel is compared bucket by bucket with the model after every operation and every Expiration removal is predicted; the "
+                     "unswept-after-one-tick oracle runs on the implementation at every quiescent point.",
+               design_ref="DESIGN.md section 5, C13", note=MAINT_NOTE + " The stale-clock interleaving itself (write sampling the clock before a sweep) needs two goroutines: see the sched engine when present.", technique=MAINT_TECH),
+    "C19": dict(text="Coq theorems on LoadCacheFrom's per-entry program: an unexpired entry is loaded with the saved key, value and expiration deadline for any number of warm-up reads and any read calculator; nothing with deadline <= now is loaded. "
+                     "Harness: save -> clock offset -> load into a fresh cache of the same configuration (same/larger/smaller maximum), compared entry by entry.",
+               design_ref="DESIGN.md section 5, C19", note=SEQ_NOTE + " gob is modelled as the identity; Hottest's order is the policy's.", technique=SEQ_TECH),
     "C01": dict(text="Coq theorem: the concrete sequential model of cache_impl.go (expired nodes physically present, all 20 operations incl. loads, "
                      "bulk loads, refresh tasks, iteration, automatic removals as reported events) refines the abstract map-with-deadlines for every "
                      "configuration, calculator table, operation sequence and non-decreasing clock (C01_refines); maintenance timing cannot influence any "
